@@ -8,7 +8,7 @@ META = {
     "explanation": "R1 verbatim print: Printer::print hands the entry's own path (WalkEntry::path through allow-listed identity conversions only) and the delimiter to one write_fmt whose compiled template is exactly two bare placeholders with no literal text; the record is written by a complete-write API (write_fmt/write_all, never a bare Write::write whose count is dropped); "
                    "the delimiter's Display writes exactly one \\n / one \\0; -print/-fprint construct Newline, -print0/-fprint0 construct Null; Printer::matches prints exactly once and is true on every path; "
                    "R2 path source: WalkEntry::path returns walkdir's path or the stored copy, every stored copy is made from walkdir's path by identity conversions, WalkDir::new receives the starting point string unmodified; "
-                   "R3 no interpretation on the xargs side in -0/-d mode and reader selection (clauses shared with C05); R4 verbatim delivery: accepted bytes are pushed unchanged, every argument reaches exactly one batch in order, argv = initial arguments then the batch (clauses shared with C04)",
+                   "R2 also: the operands reach the walk as typed (C18.R1, imported); R3 no interpretation on the xargs side in -0/-d mode and reader selection (clauses shared with C05); R4 verbatim delivery: accepted bytes are pushed unchanged, every argument reaches exactly one batch in order, argv = initial arguments then the batch (clauses shared with C04)",
     "decides": "that nothing is escaped, normalised, added or partially written between the walker's path and find's output, and nothing is interpreted, dropped or duplicated between xargs' NUL-delimited input and the child's argv",
     "does_not_decide": "walkdir's path joining (starting point + '/' + names); behaviour for names that are not valid UTF-8 (outside the property)",
 }
